@@ -4,9 +4,10 @@ import SimplicityModel.HumanProg
 `render P|N <plan> [T:… C:…]` → `ok <statements separated by single spaces>` | `err`:
    the model of `Forest::from_program(commit).string_serialize()` (comment lines and column padding
    are not modelled: the harness drops comment lines and collapses white space)
-`parse <text as hex> [T:… C:…]` → `ok <root cmr> <nodes>` | `err`: lexer, parser of the rendered
+`parse <text as hex> [T:… C:…]` → `ok <root cmr> <nodes>` | `no` (an error, or not exactly the
+   one root `main`): lexer, parser of the rendered
    grammar, name resolution, type check against the annotations, root recomputed by `Prog.cmrs`
-`lex <text as hex>` → `ok <tokens>` | `lexerr`
+`lex <text as hex>` → `ok` | `lexerr`
 `ty <type>` → `<printed text> back|noparse` -/
 namespace Drv.C17
 open Prog Drv.ProgUtil HT
@@ -45,21 +46,21 @@ def handle : List String → String
     | some cs, some ex =>
       let isJet (n : List Char) : Bool := (ex.jetTy (String.ofList n)).isSome
       match parseRendered isJet cs with
-      | none => "err"
+      | none => "no"
       | some ss =>
         match toPlan ss with
-        | .err _ => "err"
+        | .err _ => "no"
         | .ok plan stmts roots =>
-          if roots ≠ 1 then "multi-root" else
+          if roots ≠ 1 then "no" else
           match infer ex.jetTy plan false with
           | .ok arrows =>
             if annotationsOk stmts arrows then
               match cmrs ex.jetCmr plan with
               | some cs => s!"ok {hex32 (cs.getD (plan.size - 1) 0)} {plan.size}"
               | none => "bad-plan"
-            else "err"
-          | .typeError => "err"
-          | .occurs => "err"
+            else "no"
+          | .typeError => "no"
+          | .occurs => "no"
           | .badPlan => "bad-plan"
           | .fuel => "model-fuel"
     | _, _ => "bad-op"
@@ -67,7 +68,7 @@ def handle : List String → String
     match charsOfHex h with
     | some cs =>
       match lex cs with
-      | some ts => s!"ok {ts.length}"
+      | some _ => "ok"
       | none => "lexerr"
     | none => "bad-op"
   | ["ty", t] =>
@@ -77,7 +78,7 @@ def handle : List String → String
       (
         let back := match lex cs with
           | some ts =>
-            match HT.parseTy (tyFuel ts) maxDepth ts with
+            match HT.parseType ts with
             | some (t', []) => if t' = t then "back" else "other"
             | _ => "noparse"
           | none => "noparse"
